@@ -29,6 +29,14 @@ CHECKS = {
             "Quiescent-point invariant + aftermath probe over the same episodes: after a 30 s virtual quiet period the FSM is IsInIdle (Inactive iff disconnected), nothing live in flight or queued, every caller answered, the authors' is_sending predicate holds; after reconnecting (same protocol, new transport) a probe send to a responsive device succeeds; zero 'Coding error' assertions anywhere (caller exceptions, event-loop exception handler, library log) and zero unhandled loop exceptions during the episode.",
             "The probe and its writes are exempt from scripted faults; 'Future exception was never retrieved' for the rig's own injected link error is ignored (the rig never awaits wait_for_connection_lost).",
             "invariant at quiescent points + aftermath probe + loop-exception/log monitors over fault-scripted episodes", "§3 C09"),
+    "C05": ("exploration",
+            "Payload-shape monitor on the real decoder: JSON-serialisability, order-independence (three decode orders with fresh objects and warm caches), index consistency against an independently written frame-layout rule, element-wise equality of arrays (n=1..8) with single-element decodes for the seven array-capable codes, and range checks on the ratio/temperature keys - over the log corpus and regex-sampled payloads of every known verb/code under the legal address shapes.",
+            "Only decodable lines are in the quantifier; a lone UFH-controller element is normalised from its one-element list; ratio/temperature key lists are committed in the check; one recorded finding (22E0/22E5/22E9 percent_4 = 1.15 for byte E6).",
+            "payload-shape / metamorphic monitors (order, array-vs-element, index-vs-frame) on the real decoder", "§3 C05"),
+    "C06": ("exploration",
+            "Acceptance-level header-pairing monitor: for each (request, conforming reply) pair - real corpus RQ->RP/W->I adjacency pairs, schema-regex-sampled requests with context-pinned replies, constructor outputs - the real PortProtocol/FSM is sent the command on a virtual clock and offered exactly one candidate: the echo with the gateway id substituted (must be returned), the reply (must be returned when awaited), or a packet differing in exactly one of code / verb / device / context (must not be returned).",
+            "Context near-misses are limited to the established index positions (0005/000C [0:4], 0404 [0:2]+[10:12], 0418/3220 [4:6], leading byte for a committed list of zone-indexed codes) and must themselves be decodable; requester/destination differences are recorded, not judged; two recorded 1FC9 findings.",
+            "acceptance-level near-miss monitor on the real FSM (history + executable pairing rule)", "§3 C06"),
 }
 NOT_APPLICABLE = []
 
